@@ -72,3 +72,31 @@ def coordinate_free_sets(inst, tr, tier, rng, always=(), k=None, maxsets=None):
     rng.shuffle(sets)
     pick = sets[:maxsets]
     return [base + list(c) for c in pick]
+
+
+def det(R, A):
+    """determinant of a square matrix of polynomials (Laplace expansion with memo over column subsets)"""
+    from engine.driver import poly as P
+    n = len(A)
+    memo = {}
+
+    def rec(row, cols):
+        if row == n:
+            return P.const(1)
+        key = cols
+        r = memo.get(key)
+        if r is not None:
+            return r
+        tot = {}
+        sign = 1
+        for idx, c in enumerate(cols):
+            a = A[row][c]
+            if a:
+                sub = rec(row + 1, cols[:idx] + cols[idx + 1:])
+                t = R.mul(a, sub)
+                tot = P.add(tot, t if sign > 0 else P.neg(t))
+            sign = -sign
+        memo[key] = tot
+        return tot
+
+    return rec(0, tuple(range(n)))
